@@ -23,7 +23,8 @@
                  add_fp -> _add_fp -> _add_hard_link_to_inode -> new_file, _add_child_to_dr,
                  _update_rr_ce_entry;  add_directory (duplicate scan, new_dir, _add_child_to_dr,
                  _update_rr_ce_entry, _create_dot/_create_dotdot, path table);  add_symlink;
-                 rm_file -> _rm_file_inodes -> (_rm_dr_link | inode is None: _remove_child_from_dr ONLY);
+                 rm_file -> _rm_file_inodes -> (_rm_dr_link | inode is None: _remove_child_from_dr,
+                 _remove_rr_ce_entry);
                  rm_directory;  _remove_rr_ce_entry;  _finish_add / _finish_remove;  _check_rr_name;
                  _reshuffle_extents, _reassign_vd_dirrecord_extents (continuation blocks get the current
                  extent when the first record pointing into them is popped from the BFS queue; the root's ER
@@ -39,10 +40,13 @@
    (_rm_file_inodes: _remove_child_from_dr, then _remove_rr_ce_entry); false = the code BEFORE the repair
    this model triggered (_remove_child_from_dr only: the continuation entry, and possibly its block, LEAK;
    kept for the refutation AccountRRProofs.arr_space_exact_old_refuted, /var/tmp/accountrr/probe_symlink_leak.py).
-   [rr_step] = rr_step_gen true is the current code.  Not modelled: Rock Ridge link counts (Model/Nlink.v), rr_children, the
-   lru caches, dates (RRPlace: lengths do not depend on them).  Exceptions that would leave a half-done edit
+   [rr_step] = rr_step_gen true is the current code.  Not modelled: Rock Ridge link counts (Model/Nlink.v),
+   rr_children, the lru caches, dates (RRPlace: lengths do not depend on them).  Exceptions that would leave a half-done edit
    (remove_entry on a missing entry, a block that is not tracked) are rendered as refusals and proved
-   unreachable (AccountRRProofs.arr_release_never_fails).  Definitions only. *)
+   unreachable (AccountRRProofs.arr_release_never_fails).  A record pointing to a block that is NOT in
+   pvd.rr_ce_blocks would keep that block's old extent in the library; [dir_area] would place it: such states
+   are unreachable as well (arr_ce_sound).  Correspondence with the library: /verif/tools/account_rr_traces.py
+   -> bad_accountrr_cases.  Definitions only. *)
 From Coq Require Import ZArith List Bool.
 From PV.Base Require Import Prim.
 From PV.Gen Require Import GenConst GenFun.
